@@ -35,17 +35,18 @@ def _recording_setter(self, value):
         d["_vf_seen"] = True
         kind = "move"
         cb = d.get("position_changed_callback")
+        flow_state = cb.args[1] if cb is not None else None
+        fid = flow_state.flow_id if flow_state is not None else None
         if self._status is FlowHeadStatus.INACTIVE:
             kind = "join"          # `parent_fork_head.position = head.position` in MergeHeads
-        elif first and cb is not None:
-            flow_state = cb.args[1]
+        elif first and flow_state is not None:
             for h in flow_state.heads.values():
                 if h is not self and self.uid in h.child_head_uids:
                     kind = "birth"  # `new_head.position = pos` in ForkHead
                     old = h._position
                     break
         LOG.append((
-            self.flow_state_uid, old, value, tuple(self.catch_pattern_failure_label),
+            fid, old, value, tuple(self.catch_pattern_failure_label),
             frozenset(self.scope_uids), kind,
         ))
     _prop.fset(self, value)
@@ -65,17 +66,24 @@ def _eval_seam(expr, context):
     return _real_eval(expr, context)
 
 
+class _QuietConsole:
+    """`print "x"` statements of the programs under test would write to the terminal"""
+
+    def print(self, *a, **k):
+        pass
+
+
 def install():
     if _installed[0]:
         return
+    sm.console = _QuietConsole()
     FlowHead.position = property(_prop.fget, _recording_setter)
     sm.eval_expression = _eval_seam
     _installed[0] = True
 
 
-def flow_id_of(flow_state_uid: str) -> str:
-    # "(flow id)uuid"
-    return flow_state_uid[1:flow_state_uid.rindex(")")]
+def flow_id_of(fid):
+    return fid
 
 
 def event_alphabet(flow_configs):
@@ -145,6 +153,7 @@ def explore_dynamic(state, cfgs, depth, max_steps=300, budget=3000):
     install()
     out = []
     covered = set()
+    raising = {}
     names = event_alphabet(state.flow_configs)
     counts = {"dyn_steps": 0, "dyn_moves": 0, "dyn_steps_raising": 0, "dyn_capped": 0,
               "dyn_max_depth": 0, "dyn_choice_points": 0}
@@ -170,6 +179,7 @@ def explore_dynamic(state, cfgs, depth, max_steps=300, budget=3000):
                     if counts["dyn_steps"] >= max_steps:
                         counts["dyn_capped"] = 1
                         counts["dyn_edges_covered"] = len(covered)
+                        counts["raising"] = raising
                         return counts, out
                     vec = vecs.pop()
                     s2 = v2x.copy_state(st)
@@ -178,8 +188,9 @@ def explore_dynamic(state, cfgs, depth, max_steps=300, budget=3000):
                     counts["dyn_steps"] += 1
                     try:
                         points, uid2, _ = v2x.step(s2, conc, vec, uid_n, budget)
-                    except Exception:  # noqa  (escaping exceptions belong to C10)
+                    except Exception as ex:  # noqa  (escaping exceptions belong to C10)
                         counts["dyn_steps_raising"] += 1
+                        raising.setdefault(f"{type(ex).__name__}: {str(ex)[:80]}", [list(a) for a, _ in hist] + [list(aev)])
                         continue
                     taken = [k for k, _ in points]
                     for i in range(len(vec), len(points)):
@@ -199,6 +210,7 @@ def explore_dynamic(state, cfgs, depth, max_steps=300, budget=3000):
     finally:
         _ACTIVE[0] = False
     counts["dyn_edges_covered"] = len(covered)
+    counts["raising"] = raising
     return counts, out
 
 
